@@ -306,6 +306,10 @@ impl Vm {
   ) -> ExecutionResult {
     match self.compile(repl, main_module, source, file_id) {
       Ok(fun) => {
+        #[cfg(laythe_verif)]
+        if crate::compiler::verif_peephole::compile_only() {
+          return ExecutionResult::Exit(0);
+        }
         self.prepare(fun);
         self.execute(ExecutionMode::Normal)
       },
